@@ -72,7 +72,9 @@ MEMBER_READS = ("contains", "contains_key", "get")
 OTHER_READS = ("len", "iter", "is_empty", "keys", "values")
 GROW = ("extend", "insert")
 ITER_TRANSPARENT = ("std::iter::Iterator::map", "std::collections::HashSet::<T, S, A>::iter", "std::iter::Iterator::cloned",
-                    "std::iter::Iterator::copied", "std::collections::HashSet::<T, S, A>::into_iter", "std::iter::IntoIterator::into_iter")
+                    "std::iter::Iterator::copied", "std::collections::HashSet::<T, S, A>::into_iter", "std::iter::IntoIterator::into_iter",
+                    # the element a `for` loop over the set is looking at
+                    "std::iter::Iterator::next")
 
 
 def excl_fields(F):
@@ -194,6 +196,39 @@ def accesses(F, f, fields, depth=0, owner_capt=None):
             for a in accesses(F, g, fields, depth + 1, owner_capt=capt):
                 out.append(Access(a.field, a.op, f, s["line"], bi, None, via=("closure",) + tuple(a.via), data=None))
     return out
+
+
+def _in_complete_loop(f, cfg, du, bb, target):
+    """`bb` sits in a loop that every path to `target` passes through and that is only left when its iterator is exhausted
+    (`for x in picked.iter() { taken.insert(..) }`): what the body does is done for every element"""
+    best = None
+    for h, blks in cfg.loops().items():
+        if bb in blks and cfg.dominates(h, target) and target not in blks and (best is None or len(blks) < len(best)):
+            best = blks
+    if best is None:
+        return False
+    for u in best:
+        for v in cfg.succ[u]:
+            if v in best or f["blocks"][v]["cleanup"] or (f["blocks"][v]["t"]["k"] == "unreachable" and not f["blocks"][v]["s"]):
+                continue
+            t = f["blocks"][u]["t"]
+            if t["k"] != "switch":
+                return False
+            pl = mir.op_place(t["discr"])
+            src = None
+            for st in f["blocks"][u]["s"]:
+                if pl is not None and st["lhs"]["l"] == pl["l"] and st["rv"]["k"] == "discr":
+                    src = st["rv"]["pl"]["l"]
+            if src is None:
+                return False
+            ds = du.defs.get(src, [])
+            if not (len(ds) == 1 and ds[0][0] == "call" and (ds[0][3].get("callee") or "").endswith("Iterator::next")):
+                return False
+            tm = dict((a_, b_) for a_, b_ in t["targets"])
+            none_t = tm.get(0, t["otherwise"])
+            if v != none_t:
+                return False
+    return True
 
 
 def s_ignore(F, res):
@@ -349,6 +384,12 @@ def s_ignore(F, res):
         res.add([ok("S-IGNORE", key, w, "%s written only by %s in %s (and initialised in new)" % ("/".join(sorted(track)), "/".join(sorted({c for _, _, c, _ in ext})), ", ".join(sorted({f["path"].split("::")[-1] for f, _, _, _ in ext}))))])
     # (b) select_input: Ok(matched) dominated by a growth of a filtered-on field with data derived from matched
     oks = [(bi, s) for bi, si, s in mir.stmts(b) if s["lhs"]["l"] == 0 and not s["lhs"]["p"] and s["rv"]["k"] == "agg" and s["rv"].get("variant") == "Ok"]
+    if not oks:
+        # the selection sits in an (awaited) helper whose result is returned as it is: the Ok(..) values that reach the return place
+        AW = ("std::future::Future::poll", "std::pin::Pin::<Ptr>::new_unchecked", "std::future::IntoFuture::into_future", "<F as std::future::IntoFuture>::into_future")
+        for o in mir.provenance(b, du, {"l": 0, "p": []}, transparent_extra=AW):
+            if o.kind == "agg" and o.rv.get("variant") == "Ok" and o.rv.get("adt", "").endswith("::Result"):
+                oks.append((o.bb, {"rv": o.rv}))
     grows = [a for a in acc if a.kind == "grow" and a.field in track and a.term is not None]
     key2 = SELP + "select_input|success records the selection"
     if not oks:
@@ -356,8 +397,11 @@ def s_ignore(F, res):
     good = bool(grows)
     why = ""
     for ob, s in oks:
-        ret = {repr(x) for x in mir.provenance(b, du, s["rv"]["ops"][0])}
-        dom = [a for a in grows if cfg.dominates(a.bb, ob)]
+        def _ok(x):
+            # identity of an origin without the projection applied on the way (`matched` vs `matched[i].ref`)
+            return (x.kind, x.bb, x.callee) if x.kind == "call" else repr(x)
+        ret = {_ok(x) for x in mir.provenance(b, du, s["rv"]["ops"][0])}
+        dom = [a for a in grows if cfg.dominates(a.bb, ob) or _in_complete_loop(b, cfg, du, a.bb, ob)]
         if not dom:
             good = False
             why = "a success return is reachable without recording the selection"
@@ -367,7 +411,7 @@ def s_ignore(F, res):
             if a.data is None:
                 continue
             src = mir.provenance(b, du, a.data, transparent_extra=ITER_TRANSPARENT)
-            if {repr(x) for x in src} & ret:
+            if {_ok(x) for x in src} & ret:
                 derived = True
         if not derived:
             good = False
@@ -376,6 +420,27 @@ def s_ignore(F, res):
         res.add([ok("S-IGNORE", key2, where(b), "every Ok(matched) is dominated by a growth of self.%s with the refs of `matched`" % "/".join(sorted({a.field for a in grows})))])
     else:
         res.add([finding("S-IGNORE", key2, where(b), why or "select_input never records its selection")])
+    # (b') ... for every element: a growth inside a closure handed to a short-circuiting adaptor runs only until the adaptor has
+    # its answer (`picked.iter().any(|x| taken.insert(..))` stops at the first fresh ref)
+    SHORT = ("any", "all", "find", "find_map", "position", "rposition", "take_while", "skip_while", "map_while", "try_for_each", "try_fold")
+    key2b = SELP + "select_input|every selected UTxO is recorded"
+    cut = []
+    for bi, t in mir.calls(b):
+        c = t.get("callee") or ""
+        if c.split("::")[-1] in SHORT and c.startswith(("std::iter::", "core::iter::")):
+            for cl in t.get("fnrefs") or ():
+                g = F.fns.get(cl)
+                if g is None:
+                    continue
+                for cb in with_closures(F, g):
+                    for _, t2 in mir.calls(cb):
+                        c2 = t2.get("callee") or ""
+                        if c2.split("::")[-1] in GROW and t2["args"] and "UtxoRef" in " ".join(t2.get("gargs") or []) + cb["locals"][mir.op_place(t2["args"][0])["l"]] if mir.op_place(t2["args"][0]) is not None else False:
+                            cut.append((t["line"], c.split("::")[-1], c2.split("::")[-1]))
+    if cut:
+        res.add([finding("S-IGNORE", key2b, where(b, cut[0][0]), "taken refs are recorded (`%s`) inside a closure handed to `%s`, which stops as soon as it has its answer: of a selection of several UTxOs only a prefix is remembered, the rest stay selectable for later blocks" % (cut[0][2], cut[0][1]))])
+    else:
+        res.add([ok("S-IGNORE", key2b, where(b), "no growth of the taken refs inside a short-circuiting adaptor's closure")])
     # (d) one selector per resolution
     r = mir.inline_calls(F, F.body("tx3_resolver::inputs::resolve"), want=_RESOLVE_HELPERS, depth=2)
     cfg_r = mir.CFG(r)
